@@ -127,6 +127,24 @@ pub fn exec(_label: &str, input: &str, out: &mut CaseOut) {
                 }
             }
         }
+        "m3" => {
+            // `m3 <utc seconds> <zone>`: built here because even printing such a value panics
+            use chrono::TimeZone;
+            let mut it = rest.split(' ');
+            let secs: i64 = it.next().and_then(|s| s.parse().ok()).unwrap_or(0);
+            let tz: chrono_tz::Tz = it.next().and_then(|s| s.parse().ok()).unwrap_or(chrono_tz::UTC);
+            if let Some(dt) = tz.timestamp_opt(secs, 0).single() {
+                out.nontrivial = true;
+                out.stat("extreme_datetime");
+                let v = Value::DateTime(DateTime::from(dt));
+                if catch_unwind(AssertUnwindSafe(|| to_zinc_string(&v).map(|s| s.len()))).is_err() {
+                    out.fail("panic_zinc_m3", format!("to_zinc_string panicked on the timestamp {secs} s in {tz}"));
+                }
+                if catch_unwind(AssertUnwindSafe(|| serde_json::to_string(&v).map(|s| s.len()))).is_err() {
+                    out.fail("panic_json_m3", format!("serde_json::to_string panicked on the timestamp {secs} s in {tz}"));
+                }
+            }
+        }
         "chain" => {
             let mut it = rest.split(' ');
             let kind = it.next().unwrap_or("list");
@@ -180,6 +198,9 @@ pub fn generate(ctx: &mut Ctx) {
     for v in named {
         ctx.case("named", &format!("v {}", vx::show(&v)));
     }
+    // known finding M3: a timestamp whose LOCAL time is outside chrono's representable range
+    ctx.case("m3", "m3 8210266873199 Australia/Sydney");
+    ctx.case("m3", "m3 -8334601228800 America/New_York");
     let n = ctx.n(4000, 150_000);
     for i in 0..n {
         let mut rng = ctx.rng.fork();
